@@ -10,8 +10,11 @@ Streams
            raw mode returns the same values as plain lists;
   lay-m    the model's reader (`parseFile2`, on the bytes and on the universal-newline text) agrees
            with the real reader field by field, also on the symbol tables; when `docOK2 d &&
-           layoutOK2 d lay` it returns `canon d` (instance of the PROVED file-level theorem
-           `parseFile_layout`, executed on every case);
+           layoutOKW d lay` it returns `canon d` on the bytes (instance of the PROVED `parseFile_layout_w`),
+           when `layoutOKU d lay` also on the universal-newline text (`parseFile_layout_univNl`), and that
+           text equals `renders d lay.univ` (`renders_univNl`) - all executed on every case;
+  outside  directed cases OUTSIDE the domain (two declarations written with brackets on one line of a
+           struct definition): model = real code, field by field (same exception, same mis-typed columns);
   names    directed documents whose struct names contain one another / equal a column name, an
            enum type or a C type word elsewhere (D16, D17), through the same differential;
   exh      (thorough) one 2-table, 2-row document x all 2^10 on/off combinations of the ten
@@ -40,14 +43,20 @@ THEOREMS = [P + t for t in (
     # file level (extension round)
     'joinCont_layout', 'typedef_block_layout', 'typeSearch_layout', 'columnsOf_layout', 'typing_layout', 'char_unsized_layout',
     'front_layout', 'lineStep_layout_row', 'lineStep_layout_pair', 'loop_layout', 'finishTables_layout', 'parseFile2_eq',
-    'parseFile_layout')]
+    'parseFile_layout',
+    # second extension round: wider domain, text mode (universal newlines), raw mode at file level
+    'layoutOK2_sub', 'typeSearch_layout_w', 'typing_layout_w', 'parseFile_layout_w', 'renders_univNl', 'univLayout_ok',
+    'parseFile_layout_univNl', 'tokCrOK_of_float', 'parseFile_layout_univNl_float', 'parseRaw_layout', 'parseRaw_layout_univNl',
+    'enums_layout')]
 FEATS = ['lead', 'seps', 'quote', 'legacy', 'case', 'tcomment', 'filler', 'crlf', 'cont', 'interleave']
 RULE = ('pairs (document, layout): documents of 0-3 tables x 0-5 rows x 1-6 columns (short/int/long/float/double/char[n]/char[], '
         '1-D arrays, enum columns), 0-4 keyword pairs, struct names biased to clashes (substrings of each other, equal to a column, '
         'enum type or C type word elsewhere); layouts toggle ten features independently (leading blanks, blank/tab separator runs, '
         'quoting style bare/"quoted"/{braced} per token, <n> vs [n], letter case of the struct name, trailing comments, comment and '
         'blank lines, CRLF, backslash continuation at any separator, interleaving of pairs / definitions / rows) plus typedef inner '
-        'layout, char[] sizing, final newline; every text is read by file name, text file object, binary file object and in raw mode. '
+        'layout, several declarations on one line of a struct (at most one with brackets per line), lone CR / LF CR inside the white '
+        'space of definitions, char[] sizing, final newline; every text is read by file name, text file object, binary file object and '
+        'in raw mode; a directed stream places two bracketed declarations on one line (outside the domain: differential only). '
         'Non-trivial: at least one table or pair and at least one feature on; distinct = distinct (document, layout) payloads.')
 TRUSTED = ['hand-written model lean/PydlVerif/Model/YannyLayout.lean (renderer, layout domain, post-fix typedef selection) and C01\'s reader '
            'model Model/Yanny{Tok,Row,File,Dom}.lean, tied to the code by the differential of this run',
@@ -60,33 +69,45 @@ ASSUMPTIONS = [
     '(C01 domain); no line contains a {ws{ws}ws} pattern and no cell/comment contains the word typedef (C01 known finding D4: regenerated, not reported)',
     'a trailing comment contains no further "#", an even number of double quotes (odd: documented failure of trailing_comment, kept as a '
     'counter-example lemma) and no backslash; comments inside a typedef additionally contain none of ; { } "',
-    'inside a struct definition every column declaration is preceded by white space (a newline when an earlier declaration on the same line '
-    'uses brackets: type() matches "[...]" greedily up to the last "];" of the line), enum labels are followed directly by their comma',
+    'inside a struct definition every column declaration is preceded by white space; a declaration written with brackets ([n], <n>, []) '
+    'is the last such declaration of its line (type() matches "[...]" greedily up to the last "];" of the line: "int a[2]; char t[8];" '
+    'on one line is outside the domain - the model is compared with the code there, stream outside); declarations without brackets '
+    'share lines freely; enum labels are followed directly by their comma',
+    'text mode (universal newlines): no comment inside a struct definition contains a lone CR (a lone CR is a line end in text mode and '
+    'would end the comment), no cell as printed contains a CR (strings: C01 domain; numbers: numpy never prints one)',
     'a bare token does not end its line with a backslash (the continuation mark); keyword values are compared after str.strip()',
     'struct names are identifiers, distinct ignoring case (otherwise arbitrary: substrings of each other, equal to column / enum / type names)',
     'char name[] is admissible when the table has a row; the column then has the width of its longest value',
 ]
-LEVEL_TEXT = ('Lean 4 theorems over an executable model of the yanny reader and of a layout relation Renders(document, layout), now up to the FILE '
-              'level: parseFile_layout - every document of the domain (several tables, enum and struct definitions, keyword pairs, struct names '
-              'arbitrary distinct identifiers) written in ANY admissible layout (comment lines, trailing comments, blank lines, leading blanks, '
-              'blank/tab runs, CRLF, backslash continuation inside any separator, bare/"quoted"/{braced} tokens, [n]/<n>/[] brackets, any letter case of '
-              'the struct name, white space and comments inside definitions, definitions anywhere in the file, rows of different tables interleaved) '
-              'reads back as the canonical document: tables, column types, row order per table, cells, pairs in order. It is the composition of '
-              'separately stated pieces: joinCont_layout (continuation joining), typedef_block_layout / front_layout (typedef extraction on laid-out '
-              'blocks, symbol table, residual text), typeSearch_layout / columnsOf_layout / typing_layout / char_unsized_layout (column typing from a '
-              'laid-out struct text, char name[] sized by the longest value), lineStep_layout_row / lineStep_layout_pair (the line step on a whole '
-              'laid-out line, on top of getToken_quote, trailingComment_strip, parseRow_layout), loop_layout (rows of each table arrive in that '
-              'table\'s order under any interleaving), finishTables_layout (record arrays). Also: the typedef of a table is selected by its own name '
-              'whatever other names and texts contain (struct_name_lookup*, pre-fix rule refuted by old_lookup_counterexample); raw mode returns '
-              'the values the record arrays are cast from (raw_same_values). The model is tied to the code on every run by a differential over '
-              'generated (document, layout) pairs read through three access modes and raw mode, with an independent cell-by-cell oracle, incl. '
-              'the bounded-exhaustive family of all 2^10 feature combinations on one document (thorough); the theorem\'s instance is also executed on '
-              'every case (model reader = canon d whenever docOK2 && layoutOK2).')
-LEVEL_NOTE = ('parseFile_layout is proved for the text as written (what a binary file object / the bytes give); the same statement for the '
-              'universal-newline text of text-mode open() (univNl) is executed on every case (stream lay-m, txt) but not proved. Domain layoutOK2 = '
-              'layoutOK + "inside a struct definition every declaration after the first is preceded by a newline" (documented assumption: type() '
-              'matches [...] greedily up to the last ]; of the line). The regex scanners of the model are hand-written equivalents of the re '
-              'expressions (trusted, compared on every run). Floats by C01\'s hypothesis h1.')
+LEVEL_TEXT = ('Lean 4 theorems over an executable model of the yanny reader and of a layout relation Renders(document, layout), at the FILE '
+              'level, for BOTH ways a file is opened: parseFile_layout_w - every document of the domain (several tables, enum and struct '
+              'definitions, keyword pairs, struct names arbitrary distinct identifiers) written in ANY admissible layout (comment lines, trailing '
+              'comments, blank lines, leading blanks, blank/tab runs, LF or CRLF per line, backslash continuation inside any separator, '
+              'bare/"quoted"/{braced} tokens, [n]/<n>/[] brackets, any letter case of the struct name, white space - LF, CR, CRLF - and comments '
+              'inside definitions, several declarations on one line, definitions anywhere in the file, rows of different tables interleaved) reads '
+              'back from the bytes (binary file object) as the canonical document: tables, column types, row order per table, cells, pairs in order; '
+              'parseFile_layout_univNl - the same for the text after Python\'s universal-newline translation (text-mode open(), file name), via '
+              'renders_univNl (the translated text of a rendering IS the rendering of the layout lay.univ) and univLayout_ok (that layout is in the '
+              'domain); parseRaw_layout / parseRaw_layout_univNl - raw mode returns the pairs and, per table, the document\'s rows as plain lists. '
+              'parseFile_layout (first extension round, narrower domain layoutOK2) is a corollary (layoutOK2_sub). Pieces stated separately: '
+              'joinCont_layout (continuation joining), typedef_block_layout / front_layout (typedef extraction on laid-out blocks, symbol table, '
+              'residual text), typeSearch_layout(_w) / columnsOf_layout / typing_layout(_w) / char_unsized_layout (column typing from a laid-out struct '
+              'text, char name[] sized by the longest value), lineStep_layout_row / lineStep_layout_pair (the line step on a whole laid-out line, on '
+              'top of getToken_quote, trailingComment_strip, parseRow_layout), loop_layout (rows of each table arrive in that table\'s order under '
+              'any interleaving), finishTables_layout (record arrays). Also: the typedef of a table is selected by its own name whatever other names '
+              'and texts contain (struct_name_lookup*, pre-fix rule refuted by old_lookup_counterexample); raw_same_values. The model is tied to the '
+              'code on every run by a differential over generated (document, layout) pairs read through three access modes and raw mode, with an '
+              'independent cell-by-cell oracle, incl. the bounded-exhaustive family of all 2^10 feature combinations on one document (thorough) and a '
+              'directed stream outside the domain; the instances of the theorems are executed on every case (model reader on the bytes = canon d '
+              'whenever docOK2 && layoutOKW, on the universal-newline text whenever layoutOKU, univNl(text) = renders d lay.univ).')
+LEVEL_NOTE = ('Domain layoutOKW = layoutOK + "inside a struct definition a declaration written with brackets is the last such declaration of its '
+              'line" (type() matches [...] greedily up to the last ]; of the line; two bracketed declarations on one line are mis-typed or raise - '
+              'in the code and in the model alike, compared by the stream outside; the code happens to read some of them correctly, e.g. two '
+              'non-char arrays, which the theorem does not cover). Text-mode domain layoutOKU = layoutOKW + no lone CR inside a comment of a struct '
+              'definition (it would end the comment: a different file) + no CR in a printed cell (tokCrOK_of_float: follows from docOK2 for any float '
+              'printer that emits no CR). What open() does to line ends is modelled by univNl (trusted, compared with str.replace on every case). The '
+              'regex scanners of the model are hand-written equivalents of the re expressions (trusted, compared on every run). Floats by C01\'s '
+              'hypothesis h1.')
 
 DB_RE = c01.DB_RE
 WS = ' \t\n\r\x0b\x0c\x1c\x1d\x1e\x1f\x85\xa0'
@@ -378,21 +399,47 @@ class LayGen:
             opts += [' ', '', '  ']
         return rng.choice(opts)
 
+    def has_br(self, c):
+        """the declaration of column c is written with brackets"""
+        return c[2] > 0 or (c[1][0] in 'SU' and c[0] not in getattr(self, 'enum_cols', ()))
+
+    def cr(self, s):
+        """second extension round: lone CRs in the white space of a definition (never inside / after a comment)"""
+        if not self.mask.get('lonecr') or '#' in s or self.rng.random() < 0.5:
+            return s
+        k = self.rng.randrange(3)
+        if k == 0:
+            return s.replace('\r\n', '\r').replace('\n', '\r')
+        if k == 1:
+            return s.replace('\n', '\n\r')
+        return s + '\r'
+
     def sdef(self, t):
         crlf = self.crlf()
         rng = self.rng
         td = bool(self.mask.get('tdlay'))
         cols = []
+        line_br = False          # a declaration with brackets already stands on the current line
         for ci, c in enumerate(t['cols']):
-            cols.append({'pre': self.nl(self.tdws(ci == 0), crlf), 'gap': rng.choice([' ', '  ', '\t']) if td else ' ',
+            pre = self.cr(self.nl(self.tdws(ci == 0), crlf))
+            br = self.has_br(c)
+            if ci > 0 and self.mask.get('sameline') and rng.random() < 0.6:
+                # several declarations on one line: legal unless two of them use brackets
+                pre = rng.choice([' ', '  ', '\t', ' \r'] if self.mask.get('lonecr') else [' ', '  ', '\t'])
+            if '\n' not in pre and br and line_br:
+                pre = self.nl('\n    ', crlf)
+            if '\n' in pre:
+                line_br = False
+            line_br = line_br or br
+            cols.append({'pre': pre, 'gap': rng.choice([' ', '  ', '\t']) if td else ' ',
                          'l1': self.on('legacy'), 'l2': self.on('legacy'), 'unsized': ci in t.get('unsized', [])})
         return {'k': 'sdef', 'lead': self.lead(),
-                'g1': self.nl(rng.choice([' ', '  ', '\t', '\n', ' \n ']) if td else ' ', crlf),
-                'g2': self.nl(rng.choice(['', ' ', '\n', '  ']) if td else ' ', crlf),
-                'cols': cols, 'closePre': self.nl(self.tdws(False, last=True), crlf),
-                'g3': self.nl(rng.choice(['', ' ', '\n', '  ']) if td else ' ', crlf),
+                'g1': self.cr(self.nl(rng.choice([' ', '  ', '\t', '\n', ' \n ']) if td else ' ', crlf)),
+                'g2': self.cr(self.nl(rng.choice(['', ' ', '\n', '  ']) if td else ' ', crlf)),
+                'cols': cols, 'closePre': self.cr(self.nl(self.tdws(False, last=True), crlf)),
+                'g3': self.cr(self.nl(rng.choice(['', ' ', '\n', '  ']) if td else ' ', crlf)),
                 'name': self.casing(t['name'].upper() if not self.mask.get('case') else t['name'], typedef=True),
-                'g4': self.nl(rng.choice(['', ' ', '\n']) if td else '', crlf),
+                'g4': self.cr(self.nl(rng.choice(['', ' ', '\n']) if td else '', crlf)),
                 'trail': self.trail(), 'comment': self.comment(TDCOMMENT_ALPHA), 'crlf': crlf}
 
     def edef(self, e):
@@ -401,12 +448,12 @@ class LayGen:
         td = bool(self.mask.get('tdlay'))
         ws = (lambda: rng.choice(['\n    ', ' ', '', '\n', '  \n\t'])) if td else (lambda: '\n    ')
         return {'k': 'edef', 'lead': self.lead(),
-                'g1': self.nl(rng.choice([' ', '  ', '\t', '\n']) if td else ' ', crlf),
-                'g2': self.nl(rng.choice(['', ' ', '\n']) if td else ' ', crlf),
-                'op': self.nl(ws(), crlf), 'afterComma': [self.nl(ws(), crlf) for _ in e[2][1:]],
-                'cl': self.nl(rng.choice(['\n', ' ', '']) if td else '\n', crlf),
-                'g3': self.nl(rng.choice(['', ' ', '\n']) if td else ' ', crlf),
-                'g4': self.nl(rng.choice(['', ' ']) if td else '', crlf),
+                'g1': self.cr(self.nl(rng.choice([' ', '  ', '\t', '\n']) if td else ' ', crlf)),
+                'g2': self.cr(self.nl(rng.choice(['', ' ', '\n']) if td else ' ', crlf)),
+                'op': self.cr(self.nl(ws(), crlf)), 'afterComma': [self.cr(self.nl(ws(), crlf)) for _ in e[2][1:]],
+                'cl': self.cr(self.nl(rng.choice(['\n', ' ', '']) if td else '\n', crlf)),
+                'g3': self.cr(self.nl(rng.choice(['', ' ', '\n']) if td else ' ', crlf)),
+                'g4': self.cr(self.nl(rng.choice(['', ' ']) if td else '', crlf)),
                 'trail': self.trail(), 'comment': self.comment(TDCOMMENT_ALPHA), 'crlf': crlf}
 
     def fillers(self):
@@ -427,6 +474,7 @@ class LayGen:
 
     def layout(self, doc):
         rng = self.rng
+        self.enum_cols = {e[0] for e in doc['enums']}
         pairs = [self.pair(kv) for kv in doc['hdr']]
         edefs = [self.edef(e) for e in doc['enums']]
         sdefs = [self.sdef(t) for t in doc['tables']]
@@ -471,6 +519,9 @@ def gen_mask(rng):
     else:
         m = {f: rng.random() < 0.5 for f in FEATS}
     m['tdlay'] = rng.random() < 0.4
+    # second extension round: several declarations on one line of a struct, lone CRs in the white space of definitions
+    m['sameline'] = rng.random() < 0.35
+    m['lonecr'] = rng.random() < 0.25
     return m
 
 
@@ -608,12 +659,16 @@ def feature_scan(text):
         f.add('seps')
     if re.search(r'(^|\s)\{[^{}\n]*\}', text) and re.search(r'"[^"\n]*"', text):
         f.add('braces+quotes')
+    for blk in re.findall(r'typedef\s+struct\s*\{[^}]*\}', text):
+        if any(re.sub(r'#.*', '', l).count(';') >= 2 for l in blk.split('\n')):
+            f.add('decls-sharing-a-line')
     return f
 
 
 # ---------------------------------------------------------------- one batch of cases
-def run_cases(ctx, cases, stream='lay', shrink=True):
-    """cases: list of dict(doc=, lay=, mask=, lseed=, p=)"""
+def run_cases(ctx, cases, stream='lay', shrink=True, outside=False):
+    """cases: list of dict(doc=, lay=, mask=, lseed=, p=).  outside=True: directed cases OUTSIDE the domain
+    (two bracketed declarations on one line of a struct): only the model-vs-real differential applies."""
     lines = [{'p': 'C02', 'op': 'lay', 'doc': lean_doc(c['doc']), 'lay': c['lay']} for c in cases]
     out = c01.drv(lines, parallel=True, chunk=300)
     for c, m in zip(cases, out):
@@ -627,37 +682,60 @@ def run_cases(ctx, cases, stream='lay', shrink=True):
             continue
         text = m['text']
         case['text'] = text
-        if not m.get('ok2', m['ok']):
+        okw, oku = bool(m.get('okw')), bool(m.get('oku'))
+        if outside:
+            if okw or not m['ok']:
+                ctx.disagree(stream + '-domain', case, 'generator: layoutOK, outside layoutOKW', 'model: layoutOK = %s, layoutOKW = %s' % (m['ok'], okw))
+                continue
+        elif not (okw and oku):
             logical = m.get('logical') or text
             if any(DB_RE.search(l) for l in logical.split('\n')) or not in_domain(doc):
                 ctx.count(stream + ':regenerated:D4-pattern')
                 continue
-            ctx.disagree(stream + '-domain', case, 'generator: in domain', 'model: docOK2 && layoutOK2 = false (layoutOK = %s)' % m['ok'])
+            ctx.disagree(stream + '-domain', case, 'generator: in domain',
+                         'model: docOK2 && layoutOKW = %s, && layoutOKU = %s (layoutOK = %s, layoutOK2 = %s)' % (okw, oku, m['ok'], m.get('ok2')))
             continue
         non = sum(1 for f in FEATS if mask.get(f))
-        ctx.seen({'doc': lean_doc(doc), 'lay': c['lay']}, bool(doc['tables'] or doc['hdr']) and non > 0)
-        _count(ctx, stream, doc, mask, text)
+        ctx.seen({'doc': lean_doc(doc), 'lay': c['lay']}, bool(doc['tables'] or doc['hdr']) and (non > 0 or outside))
         res = real_read(ctx, text)
-        # ---- property oracle
-        v = judge(doc, res)
-        if v is not None:
-            ctx.count('%s:oracle:%s' % (stream, v[0]))
-            nsig = ctx.coverage.get('%s:oracle:%s' % (stream, v[0]), 0)
-            small = shrink_case(ctx, case, v[0]) if shrink and nsig <= 2 else case
-            ctx.violate(v[0], v[1], small)
+        if not outside:
+            _count(ctx, stream, doc, mask, text)
+            ctx.count('%s:domain:%s' % (stream, 'layoutOK2' if m.get('ok2') else 'layoutOKW-only'))
+            # ---- property oracle
+            v = judge(doc, res)
+            if v is not None:
+                ctx.count('%s:oracle:%s' % (stream, v[0]))
+                nsig = ctx.coverage.get('%s:oracle:%s' % (stream, v[0]), 0)
+                small = shrink_case(ctx, case, v[0]) if shrink and nsig <= 2 else case
+                ctx.violate(v[0], v[1], small)
+            else:
+                ctx.count(stream + ':oracle:ok')
+            # ---- model vs statement: parseFile_layout_w on the bytes, parseFile_layout_univNl on the text-mode text
+            want_t = c01.expect(doc, text=True)
+            if m['canon'] != want_t:
+                ctx.disagree(stream + '-canon', case, want_t, m['canon'])
+            for which in ('bin', 'txt'):
+                mm = m[which]
+                if mm is None:
+                    continue
+                if mm['parsed'] != {'ok': m['canon']}:
+                    ctx.disagree(stream + '-m-' + which, case, m['canon'], mm['parsed'])
+            # renders_univNl: the universal-newline text is the rendering of lay.univ
+            if m.get('univLay') != m['univ']:
+                ctx.disagree(stream + '-univlay', case, m['univ'], m.get('univLay'))
+            if m['txt'] is not None:
+                ctx.count(stream + ':text-mode-differs')
+                if re.search(r'\r(?!\n)', text):
+                    ctx.count(stream + ':seen-in-text:lone-cr')
         else:
-            ctx.count(stream + ':oracle:ok')
-        # ---- model vs statement
-        want_t = c01.expect(doc, text=True)
-        if m['canon'] != want_t:
-            ctx.disagree(stream + '-canon', case, want_t, m['canon'])
+            kinds = sorted({(res[k].get('err') or 'ok') for k in ('name', 'binary')})
+            ctx.count('%s:real:%s' % (stream, '+'.join(kinds)))
+            if all('ok' in res[k] for k in ('name', 'binary')) and judge(doc, res) is None:
+                # the real reader is right although the model's domain excludes the case: worth knowing
+                ctx.count(stream + ':real-reads-the-document')
         for which in ('bin', 'txt'):
             mm = m[which]
-            if mm is None:
-                continue
-            if mm['parsed'] != {'ok': m['canon']}:
-                ctx.disagree(stream + '-m-' + which, case, m['canon'], mm['parsed'])
-            if mm['parsedOld'] != mm['parsedOldS']:
+            if mm is not None and mm['parsedOld'] != mm['parsedOldS']:
                 ctx.disagree(stream + '-sel-generic', case, mm['parsedOld'], mm['parsedOldS'])
         if m['univ'] != text.replace('\r\n', '\n').replace('\r', '\n'):
             ctx.disagree(stream + '-univnl', case, text.replace('\r\n', '\n').replace('\r', '\n'), m['univ'])
@@ -687,8 +765,9 @@ def _count(ctx, stream, doc, mask, text):
         ctx.count('%s:feat:%s' % (stream, f))
     for a, b in itertools.combinations(on, 2):
         ctx.count('%s:feat2:%s+%s' % (stream, a, b))
-    if mask.get('tdlay'):
-        ctx.count(stream + ':feat:tdlay')
+    for g in ('tdlay', 'sameline', 'lonecr'):
+        if mask.get(g):
+            ctx.count('%s:feat:%s' % (stream, g))
     for f in sorted(feature_scan(text)):
         ctx.count('%s:seen-in-text:%s' % (stream, f))
     ctx.count('%s:tables:%d' % (stream, len(doc['tables'])))
@@ -708,7 +787,7 @@ def _count(ctx, stream, doc, mask, text):
 # ---------------------------------------------------------------- shrinking
 def _fails(ctx, doc, lay, sig):
     m = c01.drv([{'p': 'C02', 'op': 'lay', 'doc': lean_doc(doc), 'lay': lay}])[0]
-    if 'driver_error' in m or m.get('text') is None or not m.get('ok2', m['ok']):
+    if 'driver_error' in m or m.get('text') is None or not (m.get('okw') and m.get('oku')):
         return None
     v = judge(doc, real_read(ctx, m['text']))
     return m['text'] if (v is not None and v[0] == sig) else None
@@ -730,7 +809,7 @@ def shrink_case(ctx, case, sig):
             return False
         if not attempt(doc, mask):
             return case          # the regenerated layout must reproduce the failure
-        for f in FEATS + ['tdlay']:
+        for f in FEATS + ['tdlay', 'sameline', 'lonecr']:
             if mask.get(f):
                 mk = dict(mask)
                 mk[f] = False
@@ -808,7 +887,7 @@ def _names(ctx):
     cases = []
     for doc in clash_docs():
         masks = [{f: False for f in FEATS}, {f: True for f in FEATS}]
-        masks[1]['tdlay'] = True
+        masks[1]['tdlay'] = masks[1]['sameline'] = masks[1]['lonecr'] = True
         for _ in range(ctx.n(2, 12)):
             masks.append(gen_mask(rng))
         for mask in masks:
@@ -840,6 +919,8 @@ def _exhaustive(ctx):
     for bits in itertools.product([False, True], repeat=len(FEATS)):
         mask = dict(zip(FEATS, bits))
         mask['tdlay'] = rng.random() < 0.5
+        mask['sameline'] = rng.random() < 0.4
+        mask['lonecr'] = rng.random() < 0.3
         for p in (1.0, 0.6):
             lseed = rng.getrandbits(48)
             cases.append({'doc': doc, 'mask': mask, 'lseed': lseed, 'p': p, 'lay': gen_layout(doc, mask, lseed, p)})
@@ -928,6 +1009,52 @@ def _tc(ctx):
             ctx.count('tc:odd-quotes:' + ('kept' if got == line else 'stripped'))
 
 
+def _outside(ctx):
+    """directed cases OUTSIDE the domain: two declarations written with brackets on one line of a struct definition
+    (`type()` matches `[...]` greedily up to the last `];` of the line).  The property does not speak about them; the
+    model must still do what the code does (same exception / same mis-typed columns): differential only."""
+    rng = ctx.rng
+    cases = []
+    tries = 0
+    while len(cases) < ctx.n(150, 1500) and tries < 20000:
+        tries += 1
+        doc = gen_doc(rng, ntab=rng.choice([1, 1, 2]))
+        if not in_domain(doc):
+            continue
+        # no `char name[]` here: when the greedy match ends in `[]`, char_length sizes an array column by its longest value,
+        # possibly 0, and numpy refuses ('x', 'S0', (n,)) - a dtype the C01 model accepts (unreachable inside the domain)
+        for t in doc['tables']:
+            t['unsized'] = []
+        mask = gen_mask(rng)
+        mask['tdlay'] = True
+        lseed = rng.getrandbits(48)
+        lay = gen_layout(doc, mask, lseed, 0.6)
+        # put two bracketed declarations of one struct on one line
+        gen = LayGen(random.Random(lseed), mask, 0.6)
+        gen.enum_cols = {e[0] for e in doc['enums']}
+        hit = False
+        sdefs = [sl for sl in lay['slots'] if sl['k'] == 'sdef']
+        for t, sl in zip(doc['tables'], sdefs):
+            br = [i for i, c in enumerate(t['cols']) if gen.has_br(c)]
+            if len(br) >= 2 and not hit:
+                i, j = br[0], br[1]
+                for k in range(i + 1, j + 1):
+                    sl['cols'][k]['pre'] = rng.choice([' ', '  ', '\t'])
+                hit = True
+        if hit:
+            # a mis-typed array column is read with int()/float() on the text between the braces; Python accepts blanks
+            # around a number, C01's model of the conversions refuses them (documented simplification of
+            # Model/YannyFile.lean, malformed input only): no padding inside array braces here
+            for sl in lay['slots']:
+                if sl['k'] == 'row':
+                    for _, cl in sl['cells']:
+                        if 'op' in cl:
+                            cl['op'] = cl['cl'] = ''
+            cases.append({'doc': doc, 'mask': mask, 'lseed': None, 'p': 0.6, 'lay': lay})
+    for i in range(0, len(cases), 500):
+        run_cases(ctx, cases[i:i + 500], 'outside', shrink=False, outside=True)
+
+
 def _ensure_driver():
     ok, _ = core.lake_build(['pydl_driver'])
     if not ok:
@@ -940,6 +1067,7 @@ def run(ctx):
     _ensure_driver()
     _names(ctx)
     _random_pairs(ctx, int(os.environ.get('C02_N', 0)) or ctx.n(3000, 24000))
+    _outside(ctx)
     _qtok(ctx)
     _tc(ctx)
     if ctx.tier == 'thorough':
@@ -952,6 +1080,7 @@ def run(ctx):
             for val in (True, False):
                 mask = {g: (g == f) == val for g in FEATS}
                 mask['tdlay'] = val
+                mask['sameline'] = mask['lonecr'] = val
                 lseed = ctx.rng.getrandbits(48)
                 cases.append({'doc': doc, 'mask': mask, 'lseed': lseed, 'p': 1.0, 'lay': gen_layout(doc, mask, lseed, 1.0)})
         run_cases(ctx, cases, 'exh')
@@ -961,7 +1090,7 @@ def replay(ctx, case):
     core.audit(ctx, LEAN_MODULES, THEOREMS)
     _ensure_driver()
     s = case.get('stream')
-    if s in ('lay', 'names', 'exh'):
+    if s in ('lay', 'names', 'exh', 'outside'):
         def refresh(c):
             if isinstance(c, list):
                 return [refresh(x) for x in c]
@@ -969,7 +1098,7 @@ def replay(ctx, case):
         doc = dict(case['doc'])
         doc['tables'] = [dict(t, rows=[[refresh(c) for c in r] for r in t['rows']]) for t in doc['tables']]
         run_cases(ctx, [{'doc': doc, 'lay': case['lay'], 'mask': case.get('mask'), 'lseed': case.get('lseed'), 'p': case.get('p', 0.6)}],
-                  s, shrink=False)
+                  s, shrink=False, outside=(s == 'outside'))
     elif s == 'qtok':
         _qtok(ctx, [{k: case[k] for k in ('q', 's', 'tail', 'sep', 'rest')}])
     else:
